@@ -148,7 +148,7 @@ def run(ctx):
             ctx.violation(f"on-demand probe model disagrees with the property's wording for dtm={d} ply={p} hmc={h}: {o} vs {exp}", {"kind": "model", "input": [d, p, h]}, no_input=True); break
     # positions
     classes = CLASSES3 + (["Qr", "BN"] + r.sample([c for c in CLASSES4 if c not in ("Qr", "BN")], 1) if quick else CLASSES4)
-    per = 14 if quick else 250
+    per = 14 if quick else 70
     hmcs = [0, 0, 30, 60, 80, 90, 95, 98, 99]
     sessions = []
     optsets = [{}, {"Hash": 8}, {"Threads": 2}, {"Threads": 4, "Hash": 64}, {"Hash": 32, "Threads": 3}, {"Hash": 128}]
